@@ -188,7 +188,8 @@ fn wscript(u: &mut Unstructured) -> Option<WScript> {
     let n = u.int_in_range(0..=6usize).ok()?;
     let mut steps = vec![];
     for _ in 0..n {
-        steps.push(match u.int_in_range(0..=5u8).ok()? {
+        steps.push(match u.int_in_range(0..=6u8).ok()? {
+            6 => WStep::FirstSlice,
             0 => WStep::AcceptAll,
             1 | 2 => WStep::AcceptK(u.int_in_range(1..=300u32).ok()?),
             3 => WStep::Interrupted,
@@ -257,7 +258,8 @@ pub fn decode_seq_case(u: &mut Unstructured) -> Option<c02::SeqCase> {
         let w = if u.ratio(1u8, 3u8).ok()? { Some(wscript(u)?) } else { None };
         items.push((e, w, sampling(u)?));
     }
-    Some(c02::SeqCase { cfg: c, items })
+    let sampled_formatter = u.ratio(1u8, 3u8).unwrap_or(false);
+    Some(c02::SeqCase { cfg: c, items, sampled_formatter })
 }
 
 /// C08's arbitrary domain: an entry that carries the unroutable error report is reduced to it
